@@ -478,12 +478,16 @@ def rule_call_signature(check):
     # .apply(this, [a, b]) reports a and b; .call reports the arguments as they are
     ifs = [n for n in hir.walk(g.body) if n.get("k") == "If"]
     ok = False
+    tested = None  # the local that is compared with "apply"
     for n in ifs:
         at = gate.atom(g, {"t": "bool", "e": n["cond"], "v": True})
         if at[0] == "eq" and at[3] is True and (_is_apply_operand(prog, at[1]) or _is_apply_operand(prog, at[2])):
             th = (_ctor_name(hir.peel(n["then"])) or "").split("::")[-1]
             el = (_ctor_name(hir.peel(n["else"])) or "").split("::")[-1] if "else" in n else ""
             ok = th == "Yes" and el == "No"
+            other = at[2] if _is_apply_operand(prog, at[1]) else at[1]
+            if isinstance(other, str) and "#" in other and other.split("#")[1].split(".")[0].isdigit():
+                tested = int(other.split("#")[1].split(".")[0])
     def _str_of(e_):
         e_ = hir.peel(e_)
         v_ = hir.lit_value(e_) if e_.get("k") == "Lit" else None
@@ -517,7 +521,9 @@ def rule_call_signature(check):
             wild = str(hir.pat_variant(arms[1]["pat"])) == "_"
             if vals == ["Yes", "No"] and lit0 == "apply" and wild and "guard" not in arms[0]:
                 ok = True
-    pn = [b for b in g.bindings().values() if b["name"] == "prop_name"]
+                l_ = hir.local_of(hir.peel_transparent(m_["scrut"]))
+                tested = l_[0] if l_ else tested
+    pn = [g.bindings()[tested]] if tested in g.bindings() and g.bindings()[tested]["origin"][0] == "let" else [b for b in g.bindings().values() if b["name"] == "prop_name"]
     dflt = False
     if pn and pn[0]["origin"][1] is not None:
         init = hir.peel(pn[0]["origin"][1])
@@ -943,38 +949,55 @@ def rule_ident_mode(check):
     R = "IDENT-MODE"
     check.rule(R, "an identifier operand may stay in place only if what is evaluated after it is an identifier or literal: the mode for the left operand derives from get_ident_mode(right) and vice versa; get_ident_mode returns Keep only under is_ident() || is_lit(); templates and call arguments always use Replace")
     prog = check.prog
-    f = prog.fn("binary_add_transform::prepare_replace_expressions_in_binary")
+    from . import boolform as BF
+
+    # the function that decides the mode from the sibling operand: returns an IdentMode, takes an expression
+    deciders = [h for h in prog.user_fns if (h.rec.get("ret") or "").endswith("IdentMode") and any("swc_ecma_ast::Expr" in (p_.get("ty") or "") for p_ in h.rec.get("params", []))]
+    if len(deciders) != 1:
+        raise AnchorMissing("the function that derives an IdentMode from the sibling operand (%d candidates)" % len(deciders))
+    g = deciders[0]
+    entry = prog.fn("BinaryAddTransform::to_dd_binary_expr")
+    fs = [h for h in prog.flat(entry, 3) if len([n for n in hir.calls_in(h.body, name="replace_expressions_in_expr")]) >= 2 and h.name != "replace_expressions_in_expr"]
+    if not fs:
+        raise AnchorMissing("the function of the binary transform that replaces both operands")
+    f = fs[0]
     calls = [n for n in hir.calls_in(f.body, name="replace_expressions_in_expr")]
     check.floor(R, "operand replacements in the binary transform", len(calls), 2)
     for n in calls:
         a = hir.call_args(n)
         operand = (hir.place(a[0]) or "").split(".")[-1]
-        l = hir.local_of(a[1])
-        init = f.bindings()[l[0]]["origin"][1] if l else None
+        m_ = hir.peel(a[1])
+        l = hir.local_of(m_)
+        if l and f.bindings()[l[0]]["origin"][0] == "let" and f.bindings()[l[0]]["origin"][1] is not None:
+            m_ = hir.peel(f.bindings()[l[0]]["origin"][1])
         src = None
-        if init is not None and hir.is_call(hir.peel(init)) and hir.callee_name(hir.peel(init)) == "get_ident_mode":
-            src = (hir.place(hir.call_args(hir.peel(init))[0]) or "").split(".")[-1]
+        if hir.is_call(m_) and prog.resolve_local(m_) is g and hir.call_args(m_):
+            src = (hir.place(hir.call_args(m_)[0]) or "").split(".")[-1]
         other = {"left": "right", "right": "left"}.get(operand)
-        check.expect(src == other, R, "%s/%s" % (R, operand), hir.loc(n), "mode of %s = get_ident_mode(%s)" % (operand, src), "the keep/replace mode of binary.%s derives from %s (must be get_ident_mode(binary.%s))" % (operand, src or hir.describe(a[1]), other))
-    g = prog.fn("OperandHandler::get_ident_mode")
+        check.expect(src == other, R, "%s/%s" % (R, operand), hir.loc(n), "mode of %s = %s(%s)" % (operand, g.name, src), "the keep/replace mode of binary.%s derives from %s (must be %s(binary.%s))" % (operand, src or hir.describe(a[1]), g.name, other))
+    # Keep exactly when the sibling is an identifier or a literal
+    PRE = "is:swc_ecma_ast::Expr::"
+
+    def atomize(fn_, e):
+        e = hir.peel(e)
+        if hir.is_call(e) and (hir.callee_name(e) or e.get("method")) in ("is_ident", "is_lit") and "swc_ecma_ast::Expr" in ((e.get("callee") or {}).get("path") or "") + (hir.peel(hir.call_args(e)[0]).get("ty") or ""):
+            return BF.atom(PRE + ("Ident" if (hir.callee_name(e) or e.get("method")) == "is_ident" else "Lit"))
+        return None
+
+    goal = BF.disj([BF.atom(PRE + "Ident"), BF.atom(PRE + "Lit")])
+    n_ret = 0
     for r in return_exprs(g.body):
         cn = (_ctor_name(r) or "").split("::")[-1]
-        conds = g.conds_at(r)
-        desc = []
-        for c in conds:
-            if c["t"] == "bool":
-                e = hir.peel(c["e"])
-                if e.get("k") == "Binary" and e["op"] == "Or":
-                    names = sorted((hir.callee_name(hir.peel(s)) or hir.peel(s).get("method") or "?") for s in (e["l"], e["r"]))
-                    desc.append(("|".join(names), c["v"]))
-                else:
-                    desc.append((hir.describe(e), c["v"]))
+        prem = BF.from_conds(g, [c for c in g.conds_at(r) if c["t"] != "closure"], atomize, prog)
         if cn == "Keep":
-            check.expect(desc == [("is_ident|is_lit", True)], R, R + "/keep", hir.loc(r), "Keep only if is_ident() || is_lit()", "Keep is returned under %s" % desc)
+            n_ret += 1
+            ok = BF.entails(prem, goal) and all(BF.entails([goal], p_) for p_ in prem)
+            check.expect(ok, R, R + "/keep", hir.loc(r), "Keep only if is_ident() || is_lit()", "Keep is returned under %s" % [BF.show(p_) for p_ in prem])
         elif cn == "Replace":
-            if sorted(desc) == [("operand.is_ident()", False), ("operand.is_lit()", False)]:
-                desc = [("is_ident|is_lit", False)]
-            check.expect(desc == [("is_ident|is_lit", False)], R, R + "/replace", hir.loc(r), "Replace otherwise", "Replace is returned under %s" % desc)
+            n_ret += 1
+            ok = BF.entails(prem, BF.neg(goal)) and all(BF.entails([BF.neg(goal)], p_) for p_ in prem)
+            check.expect(ok, R, R + "/replace", hir.loc(r), "Replace otherwise", "Replace is returned under %s" % [BF.show(p_) for p_ in prem])
+    check.floor(R, "Keep / Replace answers of the mode function", n_ret, 2)
     for fname in ("TemplateTransform::to_dd_tpl_expr", "call_expr_transform::replace_call_callee_and_args"):
         h = prog.fn(fname)
         for n in list(hir.calls_in(h.body, name="replace_expressions_in_expr")) + list(hir.calls_in(h.body, name="replace_expressions_in_expr_or_spread")):
